@@ -77,7 +77,7 @@ EDGES = [
      "slice start is min(position, len) <= len (C13 R13.3)"),
     (r"^<std::io::Cursor<T> as io::ReadVolatile>::read_exact_volatile$", r"index", r"^index::index\(.*,RangeFrom\{cmp::min\(Cursor::position\(\$1\),slice::len\(", "I",
      "slice start is min(position, len) <= len (C13 R13.3)"),
-    (r"^<std::io::Cursor<.*> as io::(Read|Write)Volatile>::(read|write)_volatile$", r"Overflow:Add", r"^Cursor::position\(\$1\),ok\(Try::branch\((Read|Write)Volatile::(read|write)_volatile\(", "I",
+    (r"^<std::io::Cursor<.*> as io::(Read|Write)Volatile>::(read|write)_volatile$", r"Overflow:Add", r"^Cursor::position\(\$1\),ok\((Read|Write)Volatile::(read|write)_volatile\(", "I",
      "n <= len - min(position, len): position + n <= max(position, len); host-side stream state, not guest data"),
     (r"^<std::io::Cursor<T> as io::ReadVolatile>::read_exact_volatile$", r"Overflow:Add", r"^Cursor::position\(\$1\),VolatileSlice::len\(\$2\)$", "I",
      "only reached after read_exact succeeded, i.e. buf.len() <= len - min(position, len); host-side stream state"),
@@ -139,7 +139,7 @@ EDGES = [
     (VM + r"VolatileSlice::copy_(to|from)$", r"DivisionByZero", r"^\$1\.size / mem::size_of<T>\(\)$", "I",
      "zero-sized T returned early", r"Ne\(mem::size_of<T>\(\),0\)"),
     (r"^<volatile_memory::VolatileSlice<'_, B> as bytes::Bytes<usize>>::(read_volatile_from|write_volatile_to)$", r"unwrap",
-     r"^Result::unwrap\(VolatileSlice::subslice\(ok\(Try::branch\(VolatileSlice::offset\(\$1,\$2\)\)\),0,cmp::min\(\$4,VolatileSlice::len\(ok\(Try::branch\(VolatileSlice::offset\(\$1,\$2\)\)\)\)\)\)\)$", "I",
+     r"^Result::unwrap\(VolatileSlice::subslice\(ok\(VolatileSlice::offset\(\$1,\$2\)\),0,cmp::min\(\$4,VolatileSlice::len\(ok\(VolatileSlice::offset\(\$1,\$2\)\)\)\)\)\)$", "I",
      "subslice(0, min(len, count)) of the very slice whose len is taken: 0 + min(len, count) <= len"),
     (VM + r"VolatileArrayRef::to_slice$", r"Overflow:Mul", r"^\$1\.nelem,VolatileArrayRef::element_size\(\$1\)$", "N",
      "constructor invariant: get_array_ref checked nelem*size_of::<T>() <= isize::MAX (C01 R1.4); `new`/`with_bitmap` are unsafe"),
